@@ -514,6 +514,7 @@ def build_pdf(sc, bad_width_first=False, chains=None):
     from pypdf.generic import ArrayObject, DictionaryObject, NameObject, NumberObject, StreamObject, TextStringObject
     w = PdfWriter()
     k = 0
+    shared = {}          # one indirect stream object per media part: a picture placed on several pages is ONE XObject
     for anchors in sc.units:
         page = w.add_blank_page(width=200, height=200)
         xo = DictionaryObject()
@@ -543,7 +544,13 @@ def build_pdf(sc, bad_width_first=False, chains=None):
                 so[NameObject("/Filter")] = ArrayObject([NameObject(f) for f in chain])
             else:
                 so[NameObject("/Filter")] = NameObject("/DCTDecode")
-            xo[NameObject(f"/Im{k}")] = w._add_object(so)
+            if not chain and not (bad_width_first and k == 1):
+                ref_ = shared.get(a.media)
+                if ref_ is None:
+                    ref_ = shared[a.media] = w._add_object(so)
+            else:
+                ref_ = w._add_object(so)
+            xo[NameObject(f"/Im{k}")] = ref_
             ops_.append(f"q 50 0 0 50 {10 * k} 10 cm /Im{k} Do Q")
         res = DictionaryObject()
         res[NameObject("/XObject")] = xo
@@ -1107,6 +1114,13 @@ def search(ob, wit=None):
         return witness("pdf-filter-chain", "pdf")
     if "size-is-the-declared-width-and-height" in ob:
         return first_failure([pdf_scenario([[(30, 20), (7, 9)]]), pdf_scenario([[(1, 300)]])], ("pixel-size", "bytes"))
+    if "images-of-a-page-are-built-for-that-page" in ob or (fmt == "pdf" and "/unit#" in ob):
+        sc = pdf_scenario([[(30, 20)], [(31, 21)], [(32, 22)]])
+        first = sc.units[0][0].media
+        sc.units[1].insert(0, Anchor(first))       # the picture of page 1 is placed again on pages 2 and 3 (same XObject)
+        sc.units[2].append(Anchor(first))
+        sc.note = "one image XObject placed on three pages"
+        return first_failure([sc], ("bytes", "unit"))
     if "number-and-page-are-the-arguments" in ob:
         return first_failure([pdf_scenario([[(30, 20), (7, 9)]])], ("numbering", "unit")) or first_failure([pdf_scenario([[(3, 2)], [(4, 5)]])], ("unit",))
     if "/completeness#" in ob:
